@@ -150,6 +150,13 @@ async def _interp(ctx, ev, sp, prog):
         raise
     except asyncio.CancelledError:
         how = "cancel"
+        if sp.get("stream_on_cancel"):
+            # user code that reports its own shutdown: `finally: ctx.write_event_to_stream(...)`
+            from vf import events as E
+
+            e = E.EvS(uid=r.new_uid(), v=f"{v}>{step}.cancelled")
+            r.add("emit", how="stream", step=step, bid=bid, att=att, uid=e.get("uid"), v=e.get("v"), type="EvS", target=None, parent=uid)
+            ctx.write_event_to_stream(e)
         raise
     except BaseException as e:  # noqa: BLE001
         how = "raise:" + type(e).__name__
